@@ -142,6 +142,11 @@ def run(prop, tier, seed, replay):
         add("exists-no-overwrite", dict(common, columns=base_cols(), centres=centres, overwrite=False), "raise", pre="catalog")
         add("exists-overwrite-catalog", dict(common, columns=base_cols(), centres=centres, overwrite=True), "ok", pre="catalog")
         add("exists-overwrite-other-dir", dict(common, columns=base_cols(), centres=centres, overwrite=True), "raise", pre="dir")
+        # directories that are NOT catalog caches but carry names a careless "is this one of ours?" test could fall for
+        add("exists-overwrite-dir-with-patch-named-files", dict(common, columns=base_cols(), centres=centres, overwrite=True),
+            "raise", pre="dir-patchfiles")
+        add("exists-overwrite-dir-with-patch-named-subdir", dict(common, columns=base_cols(), centres=centres, overwrite=True),
+            "raise", pre="dir-patchdir")
         add("exists-overwrite-file", dict(common, columns=base_cols(), centres=centres, overwrite=True), "raise", pre="file")
         add("missing-parent", dict(common, columns=base_cols(), centres=centres), "raise", pre="noparent")
 
@@ -160,6 +165,16 @@ def run(prop, tier, seed, replay):
             elif pre == "dir":
                 (cache / "sub").mkdir(parents=True)
                 (cache / "sub" / "precious.txt").write_text("user data")
+            elif pre == "dir-patchfiles":
+                (cache / "results").mkdir(parents=True)
+                (cache / "patch_notes.txt").write_text("which patches to mask")
+                (cache / "patch_centers.txt").write_text("0.1 0.2")
+                (cache / "results" / "run1.dat").write_text("user data")
+            elif pre == "dir-patchdir":
+                (cache / "patch_7").mkdir(parents=True)
+                (cache / "patch_7" / "thesis.tex").write_text("user data")
+                (cache / "patch_old").mkdir()
+                (cache / "patch_old" / "meta.yml").write_text("mine: true")
             elif pre == "file":
                 cache.write_text("a file")
             elif pre == "noparent":
@@ -187,8 +202,9 @@ def run(prop, tier, seed, replay):
                 ck.add_violation(f"creation with fault '{name}' crashed the interpreter: {res.get('stderr', '')[-200:]}", rep)
                 continue
             if fault and res["outcome"] == "ok":
+                gone = " and the user's files in that directory are gone" if (pre or "").startswith("dir") and tree_hash(cache) != before else ""
                 ck.add_violation(f"creation with fault '{name}' ({pos} chunk, {w} worker(s)) returned a catalog instead of "
-                                 "raising", rep)
+                                 f"raising{gone}", rep)
                 continue
             if not fault and res["outcome"] != "ok":
                 ck.add_violation(f"fault-free creation ({name}, {w} worker(s)) raised {res.get('exc')}: {res.get('msg')}", rep)
@@ -200,7 +216,7 @@ def run(prop, tier, seed, replay):
                     ck.add_violation(f"creation ({name}, {w} worker(s)) returned a catalog of other data", rep)
                 continue
             # fault present and it raised: what is left on disk?
-            if pre in ("catalog", "dir", "file"):
+            if pre in ("catalog", "dir", "file", "dir-patchfiles", "dir-patchdir"):
                 if tree_hash(cache) != before:
                     ck.add_violation(f"'{name}': the pre-existing {'cache' if pre == 'catalog' else pre} was modified although "
                                      "creation raised", rep)
